@@ -348,8 +348,13 @@ func (b *BaseType) UnmarshalJSON(data []byte) error {
 		// 'enum' is a list or a single element representing a list of exactly one element
 		switch bt.Enum.(type) {
 		case []interface{}:
-			// it's an OvsSet
 			oSet := bt.Enum.([]interface{})
+			// a single uuid atom is written as an array too
+			if isUUIDAtom(oSet) {
+				b.Enum = []interface{}{bt.Enum}
+				break
+			}
+			// it's an OvsSet
 			if len(oSet) != 2 || oSet[0] != "set" {
 				return fmt.Errorf("enum %v is neither an atom nor a set", bt.Enum)
 			}
@@ -373,6 +378,16 @@ func (b *BaseType) UnmarshalJSON(data []byte) error {
 	b.refTable = bt.RefTable
 	b.refType = bt.RefType
 	return nil
+}
+
+// isUUIDAtom tells whether a decoded JSON array is the <atom> ["uuid", x] or
+// ["named-uuid", x]
+func isUUIDAtom(a []interface{}) bool {
+	if len(a) != 2 || (a[0] != "uuid" && a[0] != "named-uuid") {
+		return false
+	}
+	_, ok := a[1].(string)
+	return ok
 }
 
 // MarshalJSON marshals a base type to JSON
